@@ -56,6 +56,8 @@ Qed.
 Example C08_nonvacuous :
   nodup_strings ["list_pets"; "create_pet"; "show_pet_by_id"] = true /\
   trim_common_affixes ["list_pets"; "create_pet"; "show_pet_by_id"] = ["list_pets"; "create_pet"; "show_pet_by_id"] /\
+  trim_common_affixes ["get_item_1"; "get_item_2"] = ["get_item_1"; "get_item_2"] /\
+  trim_common_affixes ["get_item_a1"; "get_item_b2"] = ["a1"; "b2"] /\
   selected (only ["create_pet"]) ["list_pets"; "create_pet"; "show_pet_by_id"] = [1%nat] /\
   selected (excl ["create_pet"]) ["list_pets"; "create_pet"; "show_pet_by_id"] = [0%nat; 2%nat].
 Proof. vm_compute. repeat split; reflexivity. Qed.
